@@ -1067,8 +1067,7 @@ fn run(args: &Args) {
                 }
             }
             if o.st != "Abort" && op != "Restart" {
-                let shadow = sys.world.restart(&sys.node_id);
-                let mut d = fingerprint_diff(&fingerprint(&sys.node), &fingerprint(&shadow));
+                let mut d = restart_gap(&sys.world, &sys.node);
                 if !warn.is_empty() {
                     // with a rule downgraded to a warning the signer carries on past a failed
                     // commitment-number check: what the payment ledger then holds is not a
